@@ -24,10 +24,115 @@ pub const REQ_FLAGS: [(u16, &str); 5] = [(F_RD, "rd"), (F_CD, "cd"), (F_AD, "ad"
 pub const REQ_FLAG_MASK: u16 = F_TC | F_RD | F_Z | F_AD | F_CD;
 pub const T_OPT: u16 = 41;
 
+/// EDNS option kinds the generator produces: (feature / counter name, option code)
+pub const OPTION_KINDS: [(&str, u16); 8] = [("nsid", 3), ("cookie", 10), ("padding", 12), ("expire", 9), ("keepalive", 11), ("dau", 5), ("subnet", 8), ("unknown", 0)];
+
+/// kind of an EDNS option, by code (everything the generator does not know by name is "unknown")
+pub fn option_kind(code: u16) -> &'static str {
+    OPTION_KINDS.iter().find(|(_, c)| *c == code && code != 0).map(|(n, _)| *n).unwrap_or("unknown")
+}
+
+/// request feature name of an option kind (`:req=` attribution)
+fn option_feature(kind: &str) -> &'static str {
+    match kind {
+        "nsid" => "opt:nsid",
+        "cookie" => "opt:cookie",
+        "padding" => "opt:padding",
+        "expire" => "opt:expire",
+        "keepalive" => "opt:keepalive",
+        "dau" => "opt:dau",
+        "subnet" => "opt:subnet",
+        _ => "opt:unknown",
+    }
+}
+
+/// counter class of an option kind
+fn option_class(kind: &str) -> &'static str {
+    match kind {
+        "nsid" => "opt-option-nsid",
+        "cookie" => "opt-option-cookie",
+        "padding" => "opt-option-padding",
+        "expire" => "opt-option-expire",
+        "keepalive" => "opt-option-keepalive",
+        "dau" => "opt-option-dau",
+        "subnet" => "opt-option-subnet",
+        _ => "opt-option-unknown",
+    }
+}
+
+/// EDNS classes every quick run must reach with a verified reply, per request kind
+pub const EDNS_CLASSES: [&str; 19] = [
+    "no-opt", "opt-plain", "opt-do", "opt-z", "opt-payload-lt512", "opt-payload-512", "opt-payload-1232", "opt-payload-4096", "opt-payload-65535", "opt-with-options", "opt-options-several",
+    "opt-option-nsid", "opt-option-cookie", "opt-option-padding", "opt-option-expire", "opt-option-keepalive", "opt-option-dau", "opt-option-subnet", "opt-option-unknown",
+];
+
 #[derive(Clone, Debug, PartialEq, Eq)]
 pub struct Opt {
     pub payload: u16,
     pub dnssec_ok: bool,
+    /// the 15 flag bits behind DO (RFC 6891 6.1.4: "Set to zero by senders and ignored by receivers")
+    pub z: u16,
+    /// EDNS version; 0 for every base request (anything else is the separate BADVERS case)
+    pub version: u8,
+    /// options in wire order: (code, data)
+    pub options: Vec<(u16, Vec<u8>)>,
+}
+
+impl Opt {
+    pub fn plain(payload: u16, dnssec_ok: bool) -> Opt {
+        Opt { payload, dnssec_ok, z: 0, version: 0, options: vec![] }
+    }
+
+    fn ttl(&self) -> u32 {
+        // RFC 6891 6.1.3: ext-rcode(0) | version | DO | Z
+        ((self.version as u32) << 16) | if self.dnssec_ok { 0x8000 } else { 0 } | (self.z & 0x7fff) as u32
+    }
+
+    fn rdata(&self) -> Vec<u8> {
+        let mut rd = Vec::new();
+        for (code, data) in &self.options {
+            rd.extend_from_slice(&code.to_be_bytes());
+            rd.extend_from_slice(&(data.len() as u16).to_be_bytes());
+            rd.extend_from_slice(data);
+        }
+        rd
+    }
+
+    fn from_record(class: u16, ttl: u32, rd: &[u8]) -> Result<Opt, String> {
+        let mut options = Vec::new();
+        let mut i = 0;
+        while i < rd.len() {
+            if i + 4 > rd.len() {
+                return Err("OPT rdata: truncated option header".into());
+            }
+            let code = u16::from_be_bytes([rd[i], rd[i + 1]]);
+            let len = u16::from_be_bytes([rd[i + 2], rd[i + 3]]) as usize;
+            if i + 4 + len > rd.len() {
+                return Err("OPT rdata: truncated option data".into());
+            }
+            options.push((code, rd[i + 4..i + 4 + len].to_vec()));
+            i += 4 + len;
+        }
+        Ok(Opt { payload: class, dnssec_ok: ttl & 0x8000 != 0, z: (ttl & 0x7fff) as u16, version: (ttl >> 16) as u8, options })
+    }
+
+    pub fn kinds(&self) -> Vec<&'static str> {
+        let mut v: Vec<&'static str> = Vec::new();
+        for (c, _) in &self.options {
+            let k = option_kind(*c);
+            if !v.contains(&k) {
+                v.push(k);
+            }
+        }
+        v
+    }
+
+    pub fn json(&self) -> Value {
+        json!({
+            "payload": self.payload, "do": self.dnssec_ok, "z": self.z, "version": self.version,
+            "options": self.options.iter().map(|(c, d)| json!({"code": c, "kind": option_kind(*c), "data": vh::mon::hex(d)})).collect::<Vec<_>>(),
+        })
+    }
 }
 
 /// Shape of an unsigned base request
@@ -38,7 +143,7 @@ pub struct Spec {
     pub id: u16,
     /// subset of REQ_FLAG_MASK
     pub flags: u16,
-    /// EDNS OPT (version 0, no options), last record of the unsigned message => right before the TSIG
+    /// EDNS OPT, last record of the unsigned message => right before the TSIG
     pub opt: Option<Opt>,
     /// UPDATE: prerequisite and update sections
     pub pre: Vec<Rr>,
@@ -61,8 +166,8 @@ impl Spec {
             refwire::put_record(&mut b, &rr.owner, rr.rtype, rr.class, rr.ttl, &rr.rdata);
         }
         if let Some(o) = &self.opt {
-            // RFC 6891 6.1.2: owner root, CLASS = payload size, TTL = ext-rcode(0) version(0) DO Z
-            refwire::put_record(&mut b, &[], T_OPT, o.payload, if o.dnssec_ok { 0x8000 } else { 0 }, &[]);
+            // RFC 6891 6.1.2: owner root, CLASS = payload size, TTL = ext-rcode(0) version DO Z, RDATA = options
+            refwire::put_record(&mut b, &[], T_OPT, o.payload, o.ttl(), &o.rdata());
         }
         b
     }
@@ -72,7 +177,10 @@ impl Spec {
         let w = refwire::walk(unsigned)?;
         let rr = |r: &refwire::WRecord| Rr { owner: r.owner.labels.clone(), rtype: r.rtype, class: r.class, ttl: r.ttl, rdata: r.rdata(unsigned).to_vec() };
         let update = w.header.opcode() == 5;
-        let opt = w.sections[2].iter().find(|r| r.rtype == T_OPT).map(|r| Opt { payload: r.class, dnssec_ok: r.ttl & 0x8000 != 0 });
+        let opt = match w.sections[2].iter().find(|r| r.rtype == T_OPT) {
+            Some(r) => Some(Opt::from_record(r.class, r.ttl, r.rdata(unsigned))?),
+            None => None,
+        };
         Ok(Spec {
             kind: if update { "update" } else { "axfr" }.to_string(),
             id: w.header.id,
@@ -99,6 +207,52 @@ impl Spec {
         v
     }
 
+    /// EDNS classes of this request (subset of EDNS_CLASSES; counted per request kind)
+    pub fn edns_classes(&self) -> Vec<&'static str> {
+        let Some(o) = &self.opt else { return vec!["no-opt"] };
+        let mut v: Vec<&'static str> = Vec::new();
+        if o.options.is_empty() && o.z == 0 {
+            v.push("opt-plain");
+        }
+        if o.dnssec_ok {
+            v.push("opt-do");
+        }
+        if o.z != 0 {
+            v.push("opt-z");
+        }
+        v.push(match o.payload {
+            0..=511 => "opt-payload-lt512",
+            512 => "opt-payload-512",
+            1232 => "opt-payload-1232",
+            4096 => "opt-payload-4096",
+            65535 => "opt-payload-65535",
+            _ => "opt-payload-other",
+        });
+        if !o.options.is_empty() {
+            v.push("opt-with-options");
+        }
+        if o.options.len() > 1 {
+            v.push("opt-options-several");
+        }
+        for k in o.kinds() {
+            v.push(option_class(k));
+        }
+        v
+    }
+
+    /// hickory's client side (`Message` model + `finalize`) can produce this request byte for
+    /// byte: no reserved header bit, and an advertised payload size its `Edns` model holds
+    /// (values below 512 are clamped on encoding)
+    pub fn client_expressible(&self) -> bool {
+        self.flags & F_Z == 0 && self.opt.as_ref().map(|o| o.payload >= 512).unwrap_or(true)
+    }
+
+    pub fn with_opt(&self, opt: Option<Opt>) -> Spec {
+        let mut s = self.clone();
+        s.opt = opt;
+        s
+    }
+
     /// features that make this request differ from the default shape hickory's client helpers
     /// produce; used to attribute a reply-clause alarm to the smallest responsible feature
     pub fn features(&self) -> Vec<&'static str> {
@@ -107,6 +261,18 @@ impl Spec {
             v.push("opt");
             if o.dnssec_ok {
                 v.push("do");
+            }
+            if o.z != 0 {
+                v.push("opt-z");
+            }
+            if o.payload < 512 {
+                v.push("opt-small-payload");
+            }
+            if o.version != 0 {
+                v.push("opt-version");
+            }
+            for k in o.kinds() {
+                v.push(option_feature(k));
             }
         }
         if !self.pre.is_empty() {
@@ -128,7 +294,13 @@ impl Spec {
             }
         }
         s.opt = match &self.opt {
-            Some(o) if keep.contains(&"opt") || keep.contains(&"do") => Some(Opt { payload: o.payload, dnssec_ok: o.dnssec_ok && keep.contains(&"do") }),
+            Some(o) if keep.iter().any(|k| *k == "do" || k.starts_with("opt")) => Some(Opt {
+                payload: if keep.contains(&"opt-small-payload") { o.payload } else { o.payload.max(512) },
+                dnssec_ok: o.dnssec_ok && keep.contains(&"do"),
+                z: if keep.contains(&"opt-z") { o.z } else { 0 },
+                version: if keep.contains(&"opt-version") { o.version } else { 0 },
+                options: o.options.iter().filter(|(c, _)| keep.contains(&option_feature(option_kind(*c)))).cloned().collect(),
+            }),
             _ => None,
         };
         if !keep.contains(&"prereq") {
@@ -144,7 +316,7 @@ impl Spec {
         json!({
             "kind": self.kind, "id": self.id,
             "header_flags": REQ_FLAGS.iter().filter(|(m, _)| self.flags & m != 0).map(|(_, n)| *n).collect::<Vec<_>>(),
-            "opt": self.opt.as_ref().map(|o| json!({"payload": o.payload, "do": o.dnssec_ok})),
+            "opt": self.opt.as_ref().map(|o| o.json()),
             "prerequisites": self.pre.iter().map(|r| format!("{} [{}]", rr_text(r), pre_form(r))).collect::<Vec<_>>(),
             "updates": self.upd.iter().map(rr_text).collect::<Vec<_>>(),
             "authority": self.auth.iter().map(rr_text).collect::<Vec<_>>(),
@@ -374,21 +546,109 @@ pub fn gen_flags(rng: &mut Rng) -> u16 {
     f
 }
 
+/// payload sizes: below 512 (RFC 6891 6.2.3: "MUST be treated as equal to 512"), the common ones, the extremes
+pub fn gen_payload(rng: &mut Rng) -> u16 {
+    match rng.below(9) {
+        0 => 512,
+        1 => 1232,
+        2 => 4096,
+        3 => 65535,
+        4 => 513,
+        // hickory's Edns model (which the client signer goes through) holds payload sizes >= 512
+        // only: such requests are signed by reftsig (see `Spec::client_expressible`)
+        5 => *rng.pick(&[0u16, 1, 256, 511]),
+        6 => rng.below(512) as u16,
+        _ => rng.u16().max(512),
+    }
+}
+
+/// one EDNS option of the given kind, as a client would send it
+pub fn gen_option(rng: &mut Rng, kind: &str) -> (u16, Vec<u8>) {
+    match kind {
+        // RFC 5001 2.1: the request carries an empty NSID option
+        "nsid" => (3, vec![]),
+        // RFC 7873 4: client cookie only (8 bytes)
+        "cookie" => (10, rng.bytes(8)),
+        // RFC 7830: zero bytes, any length including 0
+        "padding" => (12, vec![0u8; *rng.pick(&[0usize, 1, 7, 32, 96])]),
+        // RFC 7314: empty in a request (what secondaries put on their SOA / IXFR / AXFR queries)
+        "expire" => (9, vec![]),
+        // RFC 7828: empty in a request
+        "keepalive" => (11, vec![]),
+        // RFC 6975: algorithm numbers (in the order hickory's bit set re-emits them)
+        "dau" => (5, vec![8, 13, 15]),
+        // RFC 7871: family 1, source prefix 24, scope 0, 192.0.2.0
+        "subnet" => (8, vec![0, 1, 24, 0, 192, 0, 2]),
+        // unassigned / local-use codes with random data
+        _ => (*rng.pick(&[14u16, 100, 4242, 65001, 65534, 65535]), rng.bytes_between(0, 16)),
+    }
+}
+
+pub fn gen_options(rng: &mut Rng) -> Vec<(u16, Vec<u8>)> {
+    match rng.weighted(&[40, 38, 22]) {
+        0 => vec![],
+        1 => {
+            let k = rng.pick(&OPTION_KINDS).0;
+            vec![gen_option(rng, k)]
+        }
+        _ => {
+            let n = rng.urange(2, 4);
+            (0..n)
+                .map(|_| {
+                    let k = rng.pick(&OPTION_KINDS).0;
+                    gen_option(rng, k)
+                })
+                .collect()
+        }
+    }
+}
+
+pub fn gen_z(rng: &mut Rng) -> u16 {
+    match rng.below(3) {
+        0 => 1 << rng.below(15),
+        1 => 0x7fff,
+        _ => (rng.u16() & 0x7fff).max(1),
+    }
+}
+
 pub fn gen_opt(rng: &mut Rng) -> Option<Opt> {
-    if rng.bool() {
-        // hickory's Edns model (which the client signer goes through) holds payload sizes >= 512 only
-        let payload = match rng.below(6) {
-            0 => 512,
-            1 => 1232,
-            2 => 4096,
-            3 => 65535,
-            4 => 513,
-            _ => rng.u16().max(512),
-        };
-        Some(Opt { payload, dnssec_ok: rng.chance(2, 5) })
+    if rng.chance(3, 5) {
+        Some(Opt { payload: gen_payload(rng), dnssec_ok: rng.chance(2, 5), z: if rng.chance(1, 8) { gen_z(rng) } else { 0 }, version: 0, options: gen_options(rng) })
     } else {
         None
     }
+}
+
+/// The EDNS shapes every base request is re-sent with (reply clause only): no OPT, a plain OPT at
+/// each payload size class, DO on/off, Z bits, each option kind alone, several options, everything.
+pub fn edns_sweep(rng: &mut Rng) -> Vec<Option<Opt>> {
+    let mut v: Vec<Option<Opt>> = vec![None];
+    let small = rng.below(512) as u16;
+    for (i, p) in [small, 512, 1232, 4096, 65535].into_iter().enumerate() {
+        v.push(Some(Opt::plain(p, i % 2 == 0)));
+    }
+    v.push(Some(Opt::plain(1232, true)));
+    v.push(Some(Opt { z: gen_z(rng), ..Opt::plain(*rng.pick(&[512u16, 1232, 4096]), rng.bool()) }));
+    for (k, _) in OPTION_KINDS {
+        let options = vec![gen_option(rng, k)];
+        v.push(Some(Opt { options, ..Opt::plain(*rng.pick(&[512u16, 1232, 4096, 65535]), rng.bool()) }));
+    }
+    // several options: every kind once in random order, then a random handful (repeats allowed)
+    let mut all: Vec<(u16, Vec<u8>)> = OPTION_KINDS.iter().map(|(k, _)| gen_option(rng, k)).collect();
+    rng.shuffle(&mut all);
+    v.push(Some(Opt { options: all, ..Opt::plain(1232, rng.bool()) }));
+    let n = rng.urange(2, 4);
+    let some: Vec<(u16, Vec<u8>)> = (0..n)
+        .map(|_| {
+            let k = rng.pick(&OPTION_KINDS).0;
+            gen_option(rng, k)
+        })
+        .collect();
+    v.push(Some(Opt { options: some, ..Opt::plain(4096, rng.bool()) }));
+    // everything at once
+    let options = vec![gen_option(rng, "cookie"), gen_option(rng, "nsid"), gen_option(rng, "unknown")];
+    v.push(Some(Opt { payload: small, dnssec_ok: true, z: gen_z(rng), version: 0, options }));
+    v
 }
 
 pub fn gen_base(rng: &mut Rng, kind: &str, z: &Zone, n: u64, form_hint: u64) -> Base {
